@@ -97,6 +97,8 @@ def dead_code_programs():
     out.append(("dead:never_called", HDR + "def report(v):\n    db.Setting = v\n\ndef unused(a):\n    report(a)\n    report(a + 1)\n\ndb.On = d0.Setting\n"))
     out.append(("dead:if_false", HDR + "def report(v):\n    db.Setting = v\n\nif False:\n    report(1)\n    report(2)\ndb.On = d0.Setting\n"))
     out.append(("dead:if_zero_else", HDR + "def report(v):\n    db.Setting = v\n\nif 1:\n    db.Mode = 1\nelse:\n    report(1)\n    report(2)\ndb.On = d0.Setting\n"))
+    # inlining requested by a directive line that also carries a negated option
+    out.append(("dead:directive_inline", "# pytrapic: no-append-version, inline-functions\n" + HDR + "def report(v):\n    db.Setting = v\n\nreport(d0.Setting + 1)\ndb.On = 1\n"))
     # a library function referenced again from dead top-level code of the main file
     for i, dead in enumerate(["if False:\n    lib.report(99)\n", "if 0:\n    db.Mode = 1\n    lib.report(98)\n", "while False:\n    lib.report(97)\n"]):
         # (a reference that is dead only through a named constant - DEBUG = False; if DEBUG: lib.report(..) -
